@@ -57,7 +57,13 @@ class importability:
         if modelled():
             ghost("importable", {}).update(self.flags)
         else:
+            # three native stagings of "not importable": absent (sys.modules[m] = None), or PRESENT ON THE
+            # PATH BUT FAILING AT IMPORT (a broken installation: the module file raises ImportError)
+            import tempfile
             self.saved = {m: sys.modules.get(m, _NONE) for m in MODS}
+            self.tmp = tempfile.mkdtemp(prefix="verif_c20_")
+            self.broken = bool(CTX.native_inputs.get("broken", False))
+            sys.path.insert(0, self.tmp)
             for m in MODS:
                 if self.flags[m]:
                     if m == "z3":
@@ -65,17 +71,27 @@ class importability:
                         sys.modules[m] = _z3
                     else:
                         sys.modules[m] = types.ModuleType(m)
+                elif self.broken and m != "z3":
+                    sys.modules.pop(m, None)
+                    with open(os.path.join(self.tmp, m + ".py"), "w") as f:
+                        f.write("raise ImportError('broken installation of %s')\n" % m)
                 else:
                     sys.modules[m] = None
+            import importlib
+            importlib.invalidate_caches()
         return self
 
     def __exit__(self, *a):
         if not modelled():
+            import shutil
             for m, v in self.saved.items():
                 if v is _NONE:
                     sys.modules.pop(m, None)
                 else:
                     sys.modules[m] = v
+            if self.tmp in sys.path:
+                sys.path.remove(self.tmp)
+            shutil.rmtree(self.tmp, ignore_errors=True)
         return False
 
     def detected(self):
@@ -90,8 +106,11 @@ _NONE = object()
 
 def _imp_inputs(case):
     import itertools
-    for bits in itertools.product([False, True], repeat=4):
-        yield {"imp_" + m: b for m, b in zip(MODS, bits)}
+    for broken in (False, True):
+        for bits in itertools.product([False, True], repeat=4):
+            d = {"imp_" + m: b for m, b in zip(MODS, bits)}
+            d["broken"] = broken
+            yield d
 
 
 @harness("C20", native_inputs=_imp_inputs)
@@ -158,6 +177,7 @@ def _cfg_inputs(case):
                 d["val_gdp"] = rnd.choice(SPELLINGS)
                 for m in MODS:
                     d["imp_" + m] = rnd.random() < 0.4
+                d["broken"] = rnd.random() < 0.5
                 out.append(d)
     return out
 
